@@ -166,6 +166,11 @@ func writeDesc(w io.Writer, desc string, indent int, withDesc bool) (err error) 
 		}
 	}
 	shift := strings.Repeat("  ", indent)
+	// The reader handles backslash escapes in both string forms so a
+	// backslash has to be written escaped to be read back as is. A triple
+	// quote inside a block string would end the string early.
+	desc = strings.ReplaceAll(desc, `\`, `\\`)
+	desc = strings.ReplaceAll(desc, `"""`, `\"""`)
 	if strings.ContainsAny(desc, "\n\"") {
 		if _, err = w.Write([]byte(shift)); err == nil {
 			shift = "\n" + shift
